@@ -528,3 +528,172 @@ func checkFrameAtomic(p *Prog, r *Report) {
 		}
 	}
 }
+
+// checkSingleFramer — C17/SINGLE-FRAMER: the mutex that keeps a frame together
+// lives in the MultiplexWriter, so it serialises only writers that share the
+// instance. A second MultiplexWriter built on the connection while session
+// goroutines may still be running (an error reporter that wraps the raw writer
+// again in a deferred call) writes frames that are not serialised with the
+// first one's. Decided: no construction site of a MultiplexWriter (a store to
+// its Writer field) is "late" — reachable, in its function or through the
+// call sites of its function (depth ≤ 4), from a call that can spawn a session
+// goroutine, or run by a defer of a function that makes such a call.
+func checkSingleFramer(p *Prog, r *Report) {
+	rule := "C17/SINGLE-FRAMER"
+	r.Rule(rule, "every construction of a MultiplexWriter (store to its Writer field) happens before any session goroutine can exist: neither in its own function nor along its call sites (depth ≤ 4) is it reachable in the CFG from a call that reaches a `go` statement or errgroup.Go of the transfer packages, and it is not run by a defer of a function containing such a call", 2)
+	g := p.ModGraph()
+	fw := p.Field(pkgWire, "MultiplexWriter", "Writer")
+	if fw == nil {
+		r.Bad(rule, "anchor", "-", "MultiplexWriter.Writer not found")
+		return
+	}
+	// spawners of the transfer packages
+	spawner := map[*ssa.Function]bool{}
+	for _, fn := range p.ModFuncs {
+		pk := pkgPathOfFunc(fn)
+		if pk != pkgReceiver && pk != pkgSender {
+			continue
+		}
+		for _, b := range fn.Blocks {
+			for _, in := range b.Instrs {
+				switch x := in.(type) {
+				case *ssa.Go:
+					spawner[fn] = true
+				case ssa.CallInstruction:
+					if calleeName(x) == "(*golang.org/x/sync/errgroup.Group).Go" {
+						spawner[fn] = true
+					}
+				}
+			}
+		}
+	}
+	reachCache := map[*ssa.Function]bool{}
+	reachesSpawn := func(fn *ssa.Function) bool {
+		if fn == nil {
+			return false
+		}
+		if v, ok := reachCache[fn]; ok {
+			return v
+		}
+		res := false
+		for f := range g.Reach([]*ssa.Function{fn}, nil) {
+			if spawner[f] {
+				res = true
+				break
+			}
+		}
+		reachCache[fn] = res
+		return res
+	}
+	callSpawns := func(c ssa.CallInstruction) bool {
+		if _, isDefer := c.(*ssa.Defer); isDefer {
+			return false
+		}
+		if sc := c.Common().StaticCallee(); sc != nil {
+			return reachesSpawn(sc)
+		}
+		// dynamic call: the resolved callees of the graph
+		for _, e := range g.Out[c.Parent()] {
+			if e.Site == ssa.Instruction(c) && reachesSpawn(e.To) {
+				return true
+			}
+		}
+		return false
+	}
+	hasSpawnCall := func(fn *ssa.Function) (string, bool) {
+		pos, found := "", false
+		allCalls(fn, func(c ssa.CallInstruction) {
+			if !found && callSpawns(c) {
+				pos, found = p.Pos(instrPos(c)), true
+			}
+		})
+		return pos, found
+	}
+	// spawnBefore: some spawning call of in's function reaches in in the CFG
+	spawnBefore := func(in ssa.Instruction) (string, bool) {
+		fn := in.Parent()
+		for _, b := range fn.Blocks {
+			for i, k := range b.Instrs {
+				c, ok := k.(ssa.CallInstruction)
+				if !ok || k == in || !callSpawns(c) {
+					continue
+				}
+				if b == in.Block() {
+					for _, later := range b.Instrs[i+1:] {
+						if later == in {
+							return p.Pos(instrPos(c)), true
+						}
+					}
+				}
+				if blockReaches(b, in.Block()) {
+					return p.Pos(instrPos(c)), true
+				}
+			}
+		}
+		return "", false
+	}
+	var late func(in ssa.Instruction, depth int, seen map[*ssa.Function]bool) string
+	late = func(in ssa.Instruction, depth int, seen map[*ssa.Function]bool) string {
+		fn := in.Parent()
+		if pos, ok := spawnBefore(in); ok {
+			return "reachable after the call at " + pos + ", which can start session goroutines"
+		}
+		if _, isDefer := in.(*ssa.Defer); isDefer {
+			if pos, ok := hasSpawnCall(fn); ok {
+				return "deferred in " + funcKey(fn) + ", which calls code that starts session goroutines at " + pos
+			}
+		}
+		if depth >= 4 || seen[fn] {
+			return ""
+		}
+		seen[fn] = true
+		defer delete(seen, fn)
+		for _, e := range g.In[fn] {
+			if isTestSupport(pkgPathOfFunc(e.From)) {
+				continue
+			}
+			site := e.Site
+			if mc, isMC := site.(*ssa.MakeClosure); isMC {
+				// a literal: where is the closure value used? deferred or called
+				for _, ref := range *mc.Referrers() {
+					if ri, ok := ref.(ssa.Instruction); ok {
+						if why := late(ri, depth+1, seen); why != "" {
+							return why + " (via " + p.Pos(instrPos(ri)) + ")"
+						}
+					}
+				}
+				continue
+			}
+			if site == nil {
+				continue
+			}
+			if why := late(site, depth+1, seen); why != "" {
+				return why + " (via " + p.Pos(instrPos(site)) + ")"
+			}
+		}
+		return ""
+	}
+	n := 0
+	for _, fn := range p.ModFuncs {
+		if isTestSupport(pkgPathOfFunc(fn)) {
+			continue
+		}
+		for _, b := range fn.Blocks {
+			for _, in := range b.Instrs {
+				st, ok := in.(*ssa.Store)
+				if !ok {
+					continue
+				}
+				if _, f := fieldOfAddr(st.Addr); f != fw {
+					continue
+				}
+				n++
+				why := late(st, 0, map[*ssa.Function]bool{})
+				r.Cond(why == "", rule, funcKey(fn)+" builds a MultiplexWriter", p.Pos(st.Pos()), why+": its frames are not serialised with those of the session's MultiplexWriter (separate mutex), so an error frame can land inside another frame")
+			}
+		}
+	}
+	if n == 0 {
+		r.Bad(rule, "construction sites", "-", "no MultiplexWriter is constructed any more")
+	}
+}
